@@ -2130,6 +2130,10 @@ Plan gen_C13(std::uint64_t seed, int tier) {
     Plan p;
     BasicOpts o;
     o.pols = {"sdbg", "srel"};
+    // the documented use: decoded tables together with static offsets
+    bool with_offsets = r.chance(0.3);
+    if (with_offsets)
+        o.pols = {"sofd", "sofr"};
     o.max_alias = 1;
     o.max_cls = tier ? 16 : 10;
     o.max_meth = 4;
@@ -2153,6 +2157,25 @@ Plan gen_C13(std::uint64_t seed, int tier) {
         p = gen_basic("C13", seed, tier, o);
     }
     p.profile += "/encode-decode";
+    if (with_offsets) {
+        // the header is regenerated after every update of the generator
+        // process and compiled into both programs
+        std::vector<Event> evs;
+        for (auto& e : p.events) {
+            evs.push_back(e);
+            if (e.op == OP_UPDATE) {
+                evs.back().hash_budget = 0;
+                evs.back().alloc_fail_at = -1;
+                evs.back().alloc_fail_from_end = -1;
+                Event oe;
+                oe.op = OP_OFFSETS;
+                oe.pol = e.pol;
+                oe.per_method = (int)r.below(2);
+                evs.push_back(oe);
+            }
+        }
+        p.events = evs;
+    }
     if (r.chance(0.5))
         for (auto& rec : p.recs)
             if (rec.kind == RK_DEF)
